@@ -34,9 +34,9 @@ func (r *Rng) Intn(n int) int {
 	}
 	return int(r.U64() % uint64(n))
 }
-func (r *Rng) Bool() bool       { return r.U64()&1 == 1 }
+func (r *Rng) Bool() bool        { return r.U64()&1 == 1 }
 func (r *Rng) Chance(p int) bool { return r.Intn(100) < p }
-func (r *Rng) Fork() *Rng       { return &Rng{s: r.U64()} }
+func (r *Rng) Fork() *Rng        { return &Rng{s: r.U64()} }
 func (r *Rng) Bytes(n int) []byte {
 	b := make([]byte, n)
 	for i := range b {
